@@ -111,8 +111,10 @@ func c13alphabet() []c13op {
 // reference interpreter: returns final state and whether an apply-time error is expected
 func c13reference(initial bool, ops []c13op) (map[string]float64, bool) {
 	st := map[string]float64{}
+	// the object that exists beforehand has the value CreateOrUpdate writes (5) and a field no
+	// document mentions (spec.legacy, counted as +0.5): replacing the object removes it, patching keeps it
 	if initial {
-		st["cm"] = 0
+		st["cm"] = 5.5
 	}
 	anyErr := false
 	for _, o := range ops {
@@ -138,7 +140,7 @@ func c13reference(initial bool, ops []c13op) (map[string]float64, bool) {
 					anyErr = true
 				}
 			} else {
-				st[o.name] = o.val
+				st[o.name] = o.val + (st[o.name] - float64(int(st[o.name])))
 			}
 		}
 	}
@@ -164,6 +166,9 @@ func c13state(p *ObjectPatcher, t interface{ Fatal(...any) }) map[string]float64
 		default:
 			f = -1
 		}
+		if _, has, _ := unstructured.NestedFieldNoCopy(it.Object, "spec", "legacy"); has {
+			f += 0.5
+		}
 		out[it.GetName()] = f
 	}
 	return out
@@ -186,7 +191,7 @@ func c13apply(text string, initial bool) (state string, parseErr, applyErr error
 	client := vfx.NewMiniCluster()
 	if initial {
 		obj := &unstructured.Unstructured{Object: map[string]any{"apiVersion": "v1", "kind": "ConfigMap",
-			"metadata": map[string]any{"name": "cm", "namespace": "default"}, "spec": map[string]any{"replicas": int64(0), "ratio": 0.5, "on": true}}}
+			"metadata": map[string]any{"name": "cm", "namespace": "default"}, "spec": map[string]any{"replicas": int64(5), "ratio": 0.5, "on": true, "legacy": "x"}}}
 		if _, err := client.Dynamic().Resource(c13gvr).Namespace("default").Create(context.TODO(), obj, metav1.CreateOptions{}); err != nil {
 			panic(err)
 		}
@@ -210,9 +215,73 @@ func c13apply(text string, initial bool) (state string, parseErr, applyErr error
 	return fmtState(c13state(patcher, nil)), parseErr, applyErr, panicked
 }
 
+// c13replace: CreateOrUpdate replaces the object that exists - what the document does not
+// mention is gone afterwards - also when every field the document does mention already has
+// that value. Objects with string fields only (a ConfigMap's data), inline and as a string.
+func c13replace(r *vres.R) {
+	docObj := `{"apiVersion":"v1","kind":"ConfigMap","metadata":{"name":"cms","namespace":"default","labels":{"app":"x"}},"data":{"k":"v"}}`
+	variants := map[string]string{
+		"json-inline": `{"operation":"CreateOrUpdate","object":` + docObj + `}`,
+		"json-string": `{"operation":"CreateOrUpdate","object":` + fmt.Sprintf("%q", docObj) + `}`,
+		"yaml-inline": "operation: CreateOrUpdate\nobject:\n  apiVersion: v1\n  kind: ConfigMap\n  metadata:\n    name: cms\n    namespace: default\n    labels:\n      app: x\n  data:\n    k: v\n",
+		"yaml-string": "operation: CreateOrUpdate\nobject: |\n  " + docObj + "\n",
+	}
+	existing := map[string]map[string]any{
+		"equal":        {"k": "v"},
+		"extra-key":    {"k": "v", "obsolete": "x"},
+		"other-value":  {"k": "old"},
+		"extra+other":  {"k": "old", "obsolete": "x"},
+		"absent":       nil,
+	}
+	for vn, text := range variants {
+		for en, data := range existing {
+			key := "replace|" + vn + "|existing=" + en
+			if !r.Want(key) {
+				continue
+			}
+			client := vfx.NewMiniCluster()
+			wire := vfx.NewWireClient(client)
+			if data != nil {
+				obj := &unstructured.Unstructured{Object: map[string]any{"apiVersion": "v1", "kind": "ConfigMap",
+					"metadata": map[string]any{"name": "cms", "namespace": "default", "labels": map[string]any{"app": "x", "old": "label"}}, "data": data}}
+				if _, err := wire.Dynamic().Resource(c13gvr).Namespace("default").Create(context.TODO(), obj, metav1.CreateOptions{}); err != nil {
+					panic(err)
+				}
+			}
+			r.Eval(1)
+			r.Transition(1)
+			ops, err := ParseOperations([]byte(text))
+			if err != nil {
+				r.Violation("C13 valid-stream-rejected encoding="+vn[:4], key, err.Error(), nil)
+				continue
+			}
+			if err := NewObjectPatcher(wire, log.NewNop()).ExecuteOperations(ops); err != nil {
+				r.Violation("C13 apply-error encoding="+vn[:4], key, err.Error(), nil)
+				continue
+			}
+			got, err := client.Dynamic().Resource(c13gvr).Namespace("default").Get(context.TODO(), "cms", metav1.GetOptions{})
+			if err != nil {
+				r.Violation("C13 final-state encoding="+vn[:4], key, err.Error(), nil)
+				continue
+			}
+			d, _, _ := unstructured.NestedMap(got.Object, "data")
+			state := fmt.Sprintf("data=%v labels=%v", d, got.GetLabels())
+			if state != "data=map[k:v] labels=map[app:x]" {
+				r.Violation("C13 createOrUpdate-did-not-replace encoding="+vn[:4], key, "the object ends as "+state+", the document says data=map[k:v] labels=map[app:x]", nil)
+				continue
+			}
+			r.State(key)
+			r.Outcome(key, true)
+		}
+	}
+}
+
 func TestVerifC13(t *testing.T) {
 	r := vres.New("c13")
 	defer r.Finish()
+	if s, _ := vres.Shard(); s == 0 || r.Replaying() {
+		c13replace(r)
+	}
 	alpha := c13alphabet()
 	var usable []c13op
 	for _, o := range alpha {
@@ -285,7 +354,7 @@ func c13case(r *vres.R, key string, stream []c13op, initial bool, hasInvalid boo
 	yamlText := strings.Join(ys, "---\n")
 	r.Eval(1)
 	r.Transition(int64(len(stream)))
-	before := "cm=0"
+	before := "cm=5.5"
 	if !initial {
 		before = ""
 	}
